@@ -88,6 +88,8 @@ def check(case):
         check_meta(res, case)
     elif kind == "cli":
         check_cli(res, case)
+    elif kind == "runner":
+        check_runner(res, case)
     else:
         raise ValueError("unknown case kind %r" % kind)
     return res
@@ -235,6 +237,27 @@ def check_cli(res, case):
                  % (out.returncode, ref.failed, ref.reasons[:2], out.stdout[-600:]))
 
 
+def check_runner(res, case):
+    """Standard Runner on a scratch project (paths, environment.py, steps directory, file parsing)."""
+    from .. import disk
+    prog = runcheck.resolve_faults(case["program"])
+    ref = refmodel.simulate(prog)
+    proj = disk.Project(prog)
+    try:
+        run = disk.run_inproc(proj, disk.cli_args(prog.get("cfg") or {}) + ["-f", "null", "features"], prog)
+    finally:
+        proj.close()
+    res.label("runner-route")
+    res.nontrivial = len(runcheck.instances(prog)) >= 2
+    if run.escaped is not None:
+        res.fail("C01.verdict.escape", "Runner.run() raised %s: %s" % (type(run.escaped).__name__, run.escaped))
+    elif bool(run.failed) != bool(ref.failed):
+        res.fail("C01.runner.verdict", "Runner.run() returned failed=%s, expected %s (%s)"
+                 % (run.failed, ref.failed, ref.reasons[:2]))
+    if (prog.get("cfg") or {}).get("wip_flag"):
+        res.label("flag:--wip")
+
+
 # ---------------------------------------------------------------------------
 # generation
 # ---------------------------------------------------------------------------
@@ -277,12 +300,16 @@ def explore(rec):
     rec.hyp("metamorphic", meta_case_st(), 1500 if quick else 30000)
     rec.hyp("cli", run_case_st(max_features=2).map(lambda c: dict(c, kind="cli")),
             16 if quick else 320)
+    rec.hyp("runner-route", run_case_st(max_features=2, cfg=gen.cfg_st(flags=("stop", "dry_run", "wip_flag"))).map(
+        lambda c: dict(c, kind="runner")), 1500 if quick else 30000)
+    rec.hyp("wip-flag", run_case_st(max_features=2, cfg=gen.cfg_st(flags=("wip_flag", "wip_flag", "dry_run"))),
+            800 if quick else 15000)
 
 
 def required_labels(tier):
     return ["verdict:failed", "verdict:passed", "flag:stop", "flag:dry_run", "fault:hook",
             "fault:cleanup:raising", "has-deselected", "cut-short", "has-rule", "has-outline-row",
-            "meta:add_pass", "meta:add_deselected", "meta:permute", "cli"] + \
+            "meta:add_pass", "meta:add_deselected", "meta:permute", "cli", "runner-route", "flag:wip_flag"] + \
            ["outcome:" + o for o in OUTCOMES]
 
 
